@@ -122,3 +122,30 @@ def probe_db(db, tables):
 def parallel(fn, items, workers=16):
     with concurrent.futures.ThreadPoolExecutor(max_workers=workers) as ex:
         return list(ex.map(fn, items))
+
+
+def parse_log(log):
+    """Parse the engine's log file format (20-byte header: size, lsn, txn, prevLSN, type; little endian).
+    Stops at the first incomplete record. Returns list of dicts."""
+    out, off = [], 0
+    log = bytes(log)
+    while off + 20 <= len(log):
+        size, lsn, txn, prev, typ = [int.from_bytes(log[off + 4 * i: off + 4 * i + 4], "little", signed=True) for i in range(5)]
+        if size < 20 or off + size > len(log):
+            break
+        r = {"off": off, "size": size, "lsn": lsn, "txn": txn, "prev": prev, "type": typ}
+        if typ in (1, 2, 3, 4, 5):
+            r["page"] = int.from_bytes(log[off + 20: off + 24], "little", signed=True)
+            r["slot"] = int.from_bytes(log[off + 24: off + 28], "little")
+        elif typ == 9:
+            r["prevpage"] = int.from_bytes(log[off + 20: off + 24], "little", signed=True)
+            r["page"] = int.from_bytes(log[off + 24: off + 28], "little", signed=True)
+        out.append(r)
+        off += size
+    return out
+
+
+def losers(records):
+    """transactions with data records and neither COMMIT (7) nor ABORT (8) in the log"""
+    ended = {r["txn"] for r in records if r["type"] in (7, 8)}
+    return sorted({r["txn"] for r in records if r["type"] in (1, 2, 3, 4, 5) and r["txn"] not in ended})
